@@ -60,6 +60,7 @@ def main(argv, tier, base_seed):
         rel = {"isotropy_checked": 0, "axis_perm_checked": 0}
         reuse = 0
         inter = 0
+        swept = 0
         aborted = {}
         samples = []
         max_tasks = 0
@@ -88,6 +89,7 @@ def main(argv, tier, base_seed):
                 rel[k] += r["rel"][k]
             reuse += r.get("reuse_chain_steps", 0)
             inter += r.get("interleaved_lists_checked", 0)
+            swept += r.get("cancellation_sweep", 0)
             for k, v in (r.get("aborted_requests") or {}).items():
                 aborted[k] = aborted.get(k, 0) + v
             if r["stats"]["three_level_chains"] > 0:
@@ -159,7 +161,9 @@ def main(argv, tier, base_seed):
                 "interleaved_task_lists_checked": inter,
                 "faults": {"kind": "cancel: an earlier request on the same calculator is cancelled at its k-th cij line event and abandoned; the requests that follow "
                                    "must still equal their singleton references (the scheduler does no I/O, so no I/O fault applies)",
-                           "fired_by_site": dict(sorted(aborted.items())), "fired": sum(v for k, v in aborted.items() if k != "finished-before-the-cut")},
+                           "fired_by_site": dict(sorted(aborted.items())), "fired": sum(v for k, v in aborted.items() if k != "finished-before-the-cut"),
+                           "cancellation_sweep": "per world, an earlier full request is cancelled at the first execution of each of 12 (thorough 60) seeded distinct source "
+                                                 "lines, each followed by a fresh request compared with its singleton references: %d such pairs" % swept},
                 "real_components": ["cij.core.calculator.Calculator + qha (calculator worlds)", "cij/core/tasks.py", "cij/core/phonon_contribution/shear.py", "nonshear.py", "cij/util/voigt.py", "networkx", "numpy"],
                 "stubs": ["duck-typed calculator holding arrays (stub worlds)", "input files written by cijsim.world (calculator worlds)"], "world_kinds": wkinds,
                 "known_finding_hits": {k: c for k, (_, c) in known_hits.items()}, "harness_errors": harness[:20],
